@@ -84,11 +84,42 @@ def common_drops_optional_comma(src, ctx):
         and re.search(r",\s*/", ctx.get("printed", "")) is None
 
 
+def fixed_trailing_amp_flips_to_free(src, ctx):
+    """a fixed-form source with any non-'!' line ending in '&' (a C/c/* comment or a statement
+    text that happens to end in '&') is detected as free form"""
+    if ctx.get("expect") != "fixed":
+        return False
+    return any(l.rstrip().endswith("&") and not l.startswith("!") for l in src.split("\n") if l.strip())
+
+
+def free_all_lines_fixed_shaped(src, ctx):
+    """free-form source in which no line 'votes free' (every line starts with c/C/*/!, or has
+    only blanks/digits in columns 1-5 before its first letter, e.g. a labelled first statement
+    or statements indented by >= 5 blanks) is detected as fixed form"""
+    if ctx.get("expect") != "free":
+        return False
+    for l in src.split("\n"):
+        l = l.rstrip()
+        if not l or l[0] == "!":
+            continue
+        if (l[0] != "\t" and re.match(r"[^c*!]\s*[^\s\d\t]", l[:5], re.I)) or l.endswith("&"):
+            return False
+    return True
+
+
+def fixed_construct_name_alone(src, ctx):
+    """fixed form: an initial line that consists of `word :` only (construct name whose
+    construct starts on the continuation line, or a `::` wrapped between its colons) makes the
+    reader call error() -> sys.exit"""
+    return any(re.match(r"^[ \d]{5}[ 0]\s*\w+\s*:\s*$", l) for l in src.split("\n"))
+
+
 PREDICATES = {
     "C01": [shared_label_do_inline_comment],
     "C11": [shared_label_do_inline_comment],
     "C04": [shared_label_do_inline_comment],
     "C14": [],
+    "C05": [fixed_trailing_amp_flips_to_free, free_all_lines_fixed_shaped, fixed_construct_name_alone],
     "C02": [common_blank_invents_slashes, common_drops_optional_comma],
 }
 
